@@ -507,6 +507,11 @@ def is_transparent(term, extra=()):
     for n in callee_names(term):
         if n in TRANSPARENT or n in extra:
             return True
+        if n == "<T as std::string::ToString>::to_string":
+            # the blanket impl: transparent only for strings (for other types it is their Display rendering)
+            ta = term["callee"].get("targs") or []
+            if ta and ta[0]["ty"] in ("str", "std::string::String", "&str"):
+                return True
     return False
 
 
@@ -574,6 +579,15 @@ def trace(body, op_or_place, transparent=is_transparent, through_try=True, throu
                 from_local(l, neg, via, d)
                 return
             if all(e["k"] == "field" and e.get("owner") == "(tuple)" for e in fields) and not body.is_param(l):
+                # field-sensitive through locally built tuples: `_t = (a, b); .. _t.1` -> b
+                ds = body.defs().get(l, [])
+                if len(fields) == 1 and ds and all(r[0] == "assign" and r[3]["rv"]["k"] == "aggregate"
+                                                     and r[3]["rv"]["agg"]["k"] == "tuple" for r in ds):
+                    for r in ds:
+                        ops = r[3]["rv"]["ops"]
+                        if fields[0]["i"] < len(ops):
+                            from_op(ops[fields[0]["i"]], neg, via, d - 1)
+                    return
                 from_local(l, neg, via, d)
                 return
             if through_fields:
@@ -625,7 +639,12 @@ def trace(body, op_or_place, transparent=is_transparent, through_try=True, throu
                 elif k == "unop":
                     leaves.append(Leaf("unop", bb, rv, neg, via))
                 elif k == "aggregate":
-                    leaves.append(Leaf("aggregate", bb, rv, neg, via))
+                    a = rv["agg"]
+                    if a["k"] == "adt" and a["adt"] in ("std::option::Option", "std::result::Result", "std::ops::ControlFlow") \
+                            and len(rv["ops"]) == 1:
+                        from_op(rv["ops"][0], neg, via, d - 1)      # Some(x) / Ok(x) wrap x
+                    else:
+                        leaves.append(Leaf("aggregate", bb, rv, neg, via))
                 else:
                     leaves.append(Leaf("other", bb, rv, neg, via))
             elif kind == "call":
